@@ -332,7 +332,8 @@ def run(pid, tier):
         vlib.vh(["record", "vm", "--tier", tier, "--part", ",".join(parts), "-o", tr], bin=BIN, timeout=3000)
         events = vlib.read_ndjson(tr)
         bad = [e for e in events if e.get("ev") in ("HostPanic", "Runaway")]
-        nev, nseg, st = tc.validate(chk, "vm", SPEC_TR, tr, tag=pid, timeout=3000, parallel=6 if thorough else 5)
+        # (thorough sessions reach several hundred KiB of stack and heap: the states TLC holds need more than the default heap)
+        nev, nseg, st = tc.validate(chk, "vm", SPEC_TR, tr, tag=pid, timeout=5400, parallel=4 if thorough else 5, xmx="12g" if thorough else "4g")
         chk.add("states", st)
         chk.add("transitions", st)
         steps = [e for e in events if e.get("ev") == "Step"]
